@@ -1,4 +1,5 @@
-import XvcPipeline.Inv
+import XvcPipeline.Progress
+import XvcPipeline.Demo
 /-!
 # Property theorems C10 / C13 / C11 of the scheduler model
 
@@ -20,8 +21,8 @@ theorem C10_fsm_respected {c : Cfg} {σ σ' : Sys} (st : Next c σ σ') (s : Nat
     ((σ.loc s).terminal = false ∧ σ'.loc s = .Broken) := by
   cases st with
   | publish t _ _ _ => left; rfl
-  | deliver t _ _ _ => left; rfl
-  | procExit t _ _ => left; rfl
+  | deliver t _ _ _ _ => left; rfl
+  | procExit t _ _ _ => left; rfl
   | die t _ _ hnt =>
     by_cases h : s = t
     · subst h; right; right; exact ⟨hnt, by simp⟩
@@ -51,4 +52,173 @@ theorem C10_guard_events {c σ s x f e k} (g : Guard c σ s x f e k) : e ∈ gua
   | poolFull f hf _ => rcases hf with rfl | rfl <;> simp [guardEvents]
   | _ => simp [guardEvents]
 
+/-- THE ORDERING PROPERTY.  In every reachable state, for every graph and every schedule: if the command of step
+    `s` has been started (is running, has exited or was killed), then every step `d` it depends on has finished
+    successfully in this run (`DoneByRunning`, its command exited with status 0) or was found up to date
+    (`DoneWithoutRunning`, its command was never started); unless `s` ignores broken dependencies (`always`),
+    in which case every dependency has at least finished and no dependency command is running. -/
+theorem C10_deps_done_before_start {c : Cfg} {σ : Sys} (r : Reach c σ) (s : Nat) (h : σ.proc s ≠ .idle) :
+    (∀ d ∈ c.deps s, (σ.loc d = .DoneByRunning ∧ σ.proc d = .exited true) ∨
+                     (σ.loc d = .DoneWithoutRunning ∧ σ.proc d = .idle)) ∨
+    ((c.rc s).ignore_broken_dep_steps = true ∧
+      ∀ d ∈ c.deps s, (σ.loc d).terminal = true ∧ σ.proc d ≠ .running) := by
+  have I := reach_inv r
+  rcases I.started s h with hd | ⟨hi, ht⟩
+  · left
+    intro d hdm
+    have hdone := hd d hdm
+    cases hl : σ.loc d <;> simp [hl, St.done] at hdone
+    · right; exact ⟨rfl, (I.proc d).2.2.2.1 (by rw [hl]; rfl)⟩
+    · left; exact ⟨rfl, (I.proc d).2.2.1 hl⟩
+  · right
+    refine ⟨hi, ?_⟩
+    intro d hdm
+    refine ⟨ht d hdm, ?_⟩
+    intro hrun
+    have := ((I.proc d).1 hrun).1
+    have ht' := ht d hdm
+    rw [this] at ht'; cases ht'
+
+/-- what the bulletin map shows as finished is the real, final local state of that step -/
+theorem C10_pub_sound {c : Cfg} {σ : Sys} (r : Reach c σ) (d : Nat) (h : (σ.pub d).1.terminal = true) :
+    σ.loc d = (σ.pub d).1 := (reach_inv r).pub.1 d h
+
+/-- finished local states never change (terminal states are absorbing) -/
+theorem C10_terminal_absorbing {c : Cfg} {σ σ' : Sys} (st : Next c σ σ') (d : Nat)
+    (h : (σ.loc d).terminal = true) : σ'.loc d = σ.loc d := by
+  cases st with
+  | publish t _ _ _ => rfl
+  | deliver t _ _ _ _ => rfl
+  | procExit t _ _ _ => rfl
+  | die t _ _ hnt =>
+    by_cases hdt : d = t
+    · subst hdt; rw [h] at hnt; cases hnt
+    · simp [hdt]
+  | handler t _ x f e y k hl _ _ _ _ g =>
+    by_cases hdt : d = t
+    · subst hdt; have := guard_src_not_terminal g; rw [← hl, h] at this; cases this
+    · simp [hdt]
+
+/-- the bulletin is monotone: once it shows a finished state for a step it never shows anything else
+    (this is what makes the validation of hook traces against reconstructed bulletin states sound) -/
+theorem C10_pub_monotone {c : Cfg} {σ σ' : Sys} (r : Reach c σ) (st : Next c σ σ') (d : Nat)
+    (h : (σ.pub d).1.terminal = true) : σ'.pub d = σ.pub d := by
+  have hc := pub_terminal_chan_empty (reach_inv2 r).chanI d h
+  cases st with
+  | publish t _ _ _ => rfl
+  | procExit t _ _ _ => rfl
+  | die t _ _ _ => rfl
+  | handler t _ x f e y k _ _ _ _ _ _ => rfl
+  | deliver t _ x rest hx =>
+    by_cases hdt : d = t
+    · subst hdt; rw [hc] at hx; cases hx
+    · simp [hdt]
+
+/-- a step that does not ignore broken dependencies never starts its command (and never gets past
+    `WaitingDependencySteps`) once one of its dependencies is broken -/
+theorem C10_failed_upstream_blocks {c : Cfg} {σ : Sys} (r : Reach c σ) (s d : Nat) (hd : d ∈ c.deps s)
+    (hb : σ.loc d = .Broken) (hi : (c.rc s).ignore_broken_dep_steps = false) :
+    σ.proc s = .idle ∧ (σ.loc s).passed = false := by
+  have I := reach_inv r
+  have no : ¬ DepsOK c σ.loc s := by
+    intro h
+    rcases h with h | ⟨h, _⟩
+    · have := h d hd; rw [hb] at this; cases this
+    · rw [hi] at h; cases h
+  constructor
+  · apply Classical.byContradiction; intro h; exact no (I.started s h)
+  · cases hp : (σ.loc s).passed
+    · rfl
+    · exact absurd (I.deps s hp) no
+
+/-- ... and a broken dependency stays broken, so this holds forever -/
+theorem C10_broken_forever {c : Cfg} {σ σ' : Sys} (st : Next c σ σ') (d : Nat) (hb : σ.loc d = .Broken) :
+    σ'.loc d = .Broken := by
+  rw [C10_terminal_absorbing st d (by rw [hb]; rfl)]; exact hb
+
+/-- the cycle test of the model is exact: Kahn succeeds iff the steps can be ranked so that every dependency has a
+    smaller rank than its dependent, i.e. iff the graph has no cycle -/
+theorem C10_acyclic_iff_toposort {n : Nat} {deps : Nat → List Nat} (hwf : WF n deps) :
+    acyclic n deps = true ↔ Ranked n deps :=
+  ⟨toposort_ranked, ranked_toposort hwf⟩
+
+/-- a pipeline whose graph has a cycle is rejected: the run has no scheduler state at all, so no step thread is
+    spawned and no command runs -/
+theorem C10_cycle_rejected {c : Cfg} (hwf : WF c.n c.deps) (h : ¬ Ranked c.n c.deps) : start c = none := by
+  have : acyclic c.n c.deps = false := by
+    cases ha : acyclic c.n c.deps
+    · rfl
+    · exact absurd ((C10_acyclic_iff_toposort hwf).mp ha) h
+  simp [start, this]
+
+/-- and an acyclic one starts in the initial state of the transition system -/
+theorem C10_acyclic_starts {c : Cfg} (hwf : WF c.n c.deps) (h : Ranked c.n c.deps) : start c = some (init c) := by
+  simp [start, (C10_acyclic_iff_toposort hwf).mpr h]
+
+/-- every label sequence the trace validator (`schedmodel sched-validate`) executes is a run of the system -/
+theorem C10_validated_trace_is_run {c : Cfg} {σ' : Sys} (ls : List Label) (h : runL c (init c) ls = some σ') :
+    Reach c σ' := runL_reach .init ls h
+
+/-! ### non-vacuity: concrete runs of the executable model -/
+
+/-- two steps, step 1 depends on step 0, both `by_dependencies` with recorded dependencies, pool 1 -/
+def demoChain : Cfg :=
+  { n := 2, deps := fun i => if i = 1 then [0] else [], pool := 1, rc := fun _ => run_calculated, noDeps := fun _ => false }
+
+/-- step 0 runs and succeeds, step 1 waits, sees it done, and starts its command -/
+def demoOk : List Label :=
+  [.publish 0, .handler 0 .RunConditional, .publish 0, .handler 0 .DependencyStepsFinishedSuccessfully, .publish 0] ++
+  toRunning 0 ++
+  [.publish 1, .handler 1 .RunConditional, .publish 1, .handler 1 .DependencyStepsRunning, .publish 1,
+   .procExit 0 true, .handler 0 .ProcessCompletedSuccessfully, .publish 0] ++ deliverN 0 10 ++
+  [.handler 1 .DependencyStepsFinishedSuccessfully, .publish 1] ++ toRunning 1
+
+/-- the hypotheses of `C10_deps_done_before_start` are satisfiable: the command of step 1 is running, after its
+    dependency exited with status 0 -/
+example : (runL demoChain (init demoChain) demoOk).map
+    (fun σ => (decide (σ.proc 1 = .running), decide (σ.loc 0 = .DoneByRunning), decide (σ.proc 0 = .exited true))) =
+    some (true, true, true) := by decide
+
+/-- step 1 may NOT proceed while step 0 is still running: the `waitDone` guard is false -/
+example : (runL demoChain (init demoChain)
+    ([.publish 0, .handler 0 .RunConditional, .publish 0, .handler 0 .DependencyStepsFinishedSuccessfully, .publish 0] ++
+     toRunning 0 ++ deliverN 0 9 ++
+     [.publish 1, .handler 1 .RunConditional, .publish 1, .handler 1 .DependencyStepsRunning, .publish 1,
+      .handler 1 .DependencyStepsFinishedSuccessfully])).isSome = false := by decide
+
+/-- step 0 fails, step 1 ends `Broken` without starting: hypotheses of `C10_failed_upstream_blocks` -/
+def demoFail : List Label :=
+  [.publish 0, .handler 0 .RunConditional, .publish 0, .handler 0 .DependencyStepsFinishedSuccessfully, .publish 0] ++
+  toRunning 0 ++
+  [.publish 1, .handler 1 .RunConditional, .publish 1, .handler 1 .DependencyStepsRunning, .publish 1,
+   .procExit 0 false, .handler 0 .ProcessReturnedNonZero, .publish 0] ++ deliverN 0 10 ++
+  [.handler 1 .DependencyStepsFinishedBroken, .publish 1]
+
+example : (runL demoChain (init demoChain) demoFail).map
+    (fun σ => (decide (σ.loc 0 = .Broken), decide (σ.loc 1 = .Broken), decide (σ.proc 1 = .idle))) =
+    some (true, true, true) := by decide
+
+/-- a 2-cycle and a self loop are rejected, a chain is accepted -/
+example : acyclic 2 (fun i => if i = 0 then [1] else [0]) = false := by decide
+example : acyclic 1 (fun _ => [0]) = false := by decide
+example : acyclic 3 (fun i => if i = 0 then [] else [i - 1]) = true := by decide
+example : ¬ Ranked 2 (fun i => if i = 0 then [1] else [0]) := by
+  intro ⟨rank, h⟩
+  have h1 := h 0 (by decide) 1 (by simp)
+  have h2 := h 1 (by decide) 0 (by simp)
+  omega
+
+#print axioms C10_fsm_respected
+#print axioms C10_handlers_match_code
+#print axioms C10_guard_events
+#print axioms C10_deps_done_before_start
+#print axioms C10_pub_sound
+#print axioms C10_terminal_absorbing
+#print axioms C10_pub_monotone
+#print axioms C10_failed_upstream_blocks
+#print axioms C10_broken_forever
+#print axioms C10_acyclic_iff_toposort
+#print axioms C10_cycle_rejected
+#print axioms C10_acyclic_starts
+#print axioms C10_validated_trace_is_run
 end Sched
